@@ -152,12 +152,18 @@ RECIPES = {
     },
     "C05": {
         "level": "model_checking",
-        "families": {"quick": [("locate", 40, 3), ("elf", 6, 2), ("elfcorrupt", 12, 2)],
-                     "thorough": [("locate", 300, 6), ("elf", 40, 4), ("elfcorrupt", 80, 6)]},
+        "mc": {"quick": [("MC_Locate", "MC_Locate_q", 10)], "thorough": [("MC_Locate", "MC_Locate_t", 14)]},
+        "families": {"quick": [("locate", 40, 3), ("entsize", 25, 2), ("elf", 6, 2), ("elfcorrupt", 12, 2)],
+                     "thorough": [("locate", 300, 6), ("entsize", 200, 4), ("elf", 40, 4), ("elfcorrupt", 80, 6)]},
         "reasons": ("value", "panic"),
         "tags": ["open", "sopen", "q:shdrs_with_strtab", "sq:shdrs_with_strtab", "q:shdr_by_name", "q:symbol_table",
-                 "q:dynamic_symbol_table", "q:symbol_version_table", "q:dynamic"],
-        "rule": "B: section counts {1..5,0xfeff,0xff00,0xff01,0xff20}, program header counts {0..3,0xfffe,0xffff,0x10000,0x10010}, "
+                 "q:dynamic_symbol_table", "q:symbol_version_table", "q:dynamic", "q:find_common_data",
+                 "sq:symbol_table", "sq:dynamic_symbol_table", "sq:symbol_version_table"],
+        "rule": "A: objects built in TLA+ (1..3 sections, 0..2 segments, tables early/late, each extended-numbering escape on/off "
+                "with pairwise distinct shdr[0] fields, one defect of {entsize+-1, entsize 0, cut by one byte, e_shoff=0, "
+                "e_phoff=0}); TLC checks open against the builder's ground truth and emits each object as a session; "
+                "B: sections whose sh_entsize is wrong for symtab/dynsym/.dynamic/.gnu.version (family entsize); "
+                "section counts {1..5,0xfeff,0xff00,0xff01,0xff20}, program header counts {0..3,0xfffe,0xffff,0x10000,0x10010}, "
                 "shstrndx below/at/above 0xff00, extended numbering forced on small counts too, shdr[0] sh_size/sh_info/sh_link "
                 "pairwise distinct, tables before/after data, file cut 1..3 bytes short, every wrong entsize, e_shoff/e_phoff=0; "
                 "both parsers; count, first/middle/last entries and the section-name table are compared with the spec",
@@ -217,12 +223,17 @@ RECIPES = {
     },
     "C20": {
         "level": "model_checking",
+        "mc": {"quick": [("MC_Paths", "MC_Paths_q", 6)], "thorough": [("MC_Paths", "MC_Paths_t", 10)]},
         "families": {"quick": [("elf", 10, 4), ("elfcorrupt", 8, 2)], "thorough": [("elf", 80, 8), ("elfcorrupt", 60, 6)]},
         "reasons": ("value", "panic"),
         "tags": ["q:find_common_data", "q:shdr_by_name", "q:section_data_as_strtab", "q:section_data_as_rels",
                  "q:section_data_as_relas", "q:section_data_as_notes", "q:segment_data_as_notes", "q:dynamic", "q:symbol_table",
                  "q:dynamic_symbol_table"],
-        "rule": "B: objects with/without each of .symtab .dynsym .dynamic .hash .gnu.hash PT_DYNAMIC, names that are prefixes / "
+        "rule": "A: objects built in TLA+ with/without each of .symtab .dynsym .dynamic .hash PT_DYNAMIC, names that are "
+                "prefixes/extensions/duplicates and a non-UTF-8 name: TLC checks find_common_data = targeted accessors, by-name = "
+                "first equal name for every name/prefix/extension, typed view refused iff type differs, section path = segment "
+                "path; each object emitted as a session (~60 queries) and replayed; "
+                "B: objects with/without each of .symtab .dynsym .dynamic .hash .gnu.hash PT_DYNAMIC, names that are prefixes / "
                 "extensions / duplicates of each other and a non-UTF-8 name, queried by every name, prefix, extension; every "
                 "typed view on every section/segment type; find_common_data compared field by field (tables by entries, string "
                 "tables by walk, hash tables by lookups) with the targeted accessors' semantics",
